@@ -19,6 +19,7 @@ from ..engine import R, Sub
 from .c08 import iso
 
 PROPERTY = 'C11'
+LEVEL = 'fault_enumeration'
 ASSUMPTIONS = [
     'assignment of one step: mapping -> d[seg]=v, list -> l[int(seg)]=v, otherwise setattr; T[..] -> setitem, T.attr -> setattr',
     'with missing=factory the first inaccessible segment and everything after it is created detached and attached with one final write',
